@@ -1,6 +1,7 @@
 (** Registry/C05Proofs.v — the clauses of C05, derived from the invariant for every well-formed OwnDefault history. *)
 From Coq Require Import List NArith Bool Arith Lia.
 From TV Require Import Registry.Model Registry.Basics Registry.Inv Registry.Close Registry.Steps Registry.NewSpan Registry.Run.
+From TV Require Registry.Micro Registry.MicroReal Registry.MicroRealProofs.
 From TVGen Require Gen_registry.
 Import ListNotations.
 Local Open Scope nat_scope.
@@ -433,3 +434,16 @@ Lemma model_mirrors_source :
   = (1, 1, 1, 0, 1, 1, 1, 1)%N /\
   forallb snd Gen_registry.shapes = true /\ length Gen_registry.shapes = 20 /\ Gen_registry.gen_unrecognised = [].
 Proof. vm_compute. repeat split. Qed.
+
+(* ---------------------------------------------------------------- the faithful micro-step model, in the variant the source has *)
+(** Registry/MicroReal.v takes the variant of `Clear for DataInner` as a parameter; here it is the one the translator
+    read out of sharded.rs on this run ([Gen_registry.clear_resets_close_count]). *)
+Definition source_run (ops : list MicroReal.rop) : MicroReal.rstate := MicroReal.rrun Gen_registry.clear_resets_close_count ops.
+
+Lemma source_exactly_once_if_repaired : forall ops,
+  Gen_registry.clear_resets_close_count = true -> MicroReal.rquiescent (source_run ops) = true ->
+  forall s, s < MicroReal.r_count (source_run ops) ->
+    (MicroReal.r_closed (source_run ops) s = 1 <-> MicroReal.rheld_n (source_run ops) s = 0 /\ MicroReal.rkids_n (source_run ops) s = 0) /\
+    (MicroReal.r_closed (source_run ops) s = 1 <-> MicroReal.r_marked (source_run ops) s = true) /\
+    MicroReal.r_marked (source_run ops) s = MicroReal.r_cleared (source_run ops) s.
+Proof. unfold source_run. intros ops E. rewrite E. apply MicroRealProofs.real_quiescent_exactly_once. Qed.
